@@ -25,7 +25,7 @@ TECHNIQUE = ('small-scope enumeration of inputs + stateless choice-prefix DFS ov
 RULE = ('inputs: every row x every target over a 7-value alphabet per dtype (incl. dtype min/max, +-2^31, +-2^40 for int64) for '
         'widths 1..2 (3 with reduced target set), packed into matrices of 1..4 rows x dtypes {int8..int64,float32,float64; '
         'uint8..uint64 for hamming} x layouts {C,F,strided/negative-stride views, non-contiguous y} x out {None,fresh,strided '
-        'view with sentinels,poisoned} x kernels; invalid-argument menu must raise; schedules: per (kernel,dtype,n<=4) all '
+        'view with sentinels,poisoned} x kernels; invalid-argument menu must raise; metric names {euclidean, manhattan, cityblock} map to the right kernel; wide rows (1024..2048 features, 1..8 rows) must be bit-identical over thread counts 1..16 and orders; schedules: per (kernel,dtype,n<=4) all '
         'executions with <=2 (T: <=4) deviations from the default order for T=1..n+1 threads, T=5..16 default order, isolation '
         'run per thread; state=(kernel,dtype,layout,out mode,X,y,T,schedule); non-trivial = execution with >1 enabled thread '
         'at some decision point or input containing a dtype extreme')
@@ -34,7 +34,7 @@ ASSUMPTIONS = ['preemption inside a chunk is not enumerated; covered by the writ
                'oracle in exact rational arithmetic (fractions), compared at 1e-12 relative (float32 inputs: 1e-6)',
                'weak-memory reordering is out of reach of a baton scheduler',
                'the free-running pass (real libgomp, 1..16 threads) is a configuration sweep, not a schedule enumeration']
-GUARDS = {'multi_enabled': 100, 'extreme_values': 1000, 'strided_out': 100, 'invalid_rejected': 40, 'isolation_runs': 50,
+GUARDS = {'metric_names': 6, 'wide_rows': 50, 'multi_enabled': 100, 'extreme_values': 1000, 'strided_out': 100, 'invalid_rejected': 40, 'isolation_runs': 50,
           'free_running_threads': 16}
 EXT = 'enspara.geometry.libdist'
 KERNELS = ('euclidean', 'manhattan', 'hamming')
@@ -78,7 +78,7 @@ def shards(tier, seed):
     sh = [('inputs', tier, k, dt) for k in KERNELS for dt in dtypes_for(k)]
     sh += [('invalid', tier, 0, None)]
     sh += [('sched', tier, k, dt) for k in KERNELS for dt in (('float64', 'int32', 'float32', 'int64') if k != 'hamming' else ('uint8', 'int64', 'uint32'))]
-    sh += [('free', tier, 0, None)]
+    sh += [('free', tier, 0, None), ('names', tier, 0, None)]
     return sh
 
 
@@ -335,9 +335,14 @@ for kernel in ('euclidean', 'manhattan', 'hamming'):
     dt = np.int64 if kernel == 'hamming' else np.float64
     X = (np.arange(37 * 3).reshape(37, 3) * 5 %% 11).astype(dt)
     y = np.array([1, 2, 3], dtype=dt)
+    Xw = ((np.arange(5 * 1500).reshape(5, 1500) * 7919 %% 1000) / 7.0).astype(np.float64)
+    yw = ((np.arange(1500) * 31 %% 97) / 3.0).astype(np.float64)
+    if kernel == 'hamming':
+        Xw, yw = Xw.astype(np.int64), yw.astype(np.int64)
     for t in range(1, 17):
         gomp.omp_set_num_threads(t)
         res['%%s:%%d' %% (kernel, t)] = getattr(libdist, kernel)(X, y).tolist()
+        res['wide:%%s:%%d' %% (kernel, t)] = getattr(libdist, kernel)(Xw, yw).tobytes().hex()
 print('RESULT' + json.dumps(res))
 import os; os._exit(0)
 '''
@@ -361,13 +366,78 @@ def check_free(ctx):
             ctx.state(('free', kernel, t))
             ctx.guard('free_running_threads')
             got = np.array(res['%s:%d' % (kernel, t)])
+            if res['wide:%s:%d' % (kernel, t)] != res['wide:%s:1' % kernel]:
+                ctx.violation('%s:thread_count_dependent' % kernel, {'kind': 'free'},
+                              'real libgomp: 5 x 1500 input gives a bitwise different result with %d threads than with 1' % t)
             if not np.allclose(got, want, rtol=1e-12, atol=0):
                 ctx.violation('%s:free_running_threads' % kernel, {'kind': 'free'}, 'real libgomp with %d threads: %r != %r' % (t, got.tolist(), want.tolist()))
     ctx.sample({'kind': 'free', 'threads': '1..16', 'rows': 37})
 
 
+def check_names(ctx):
+    """metric names map to the kernels that compute that metric (through the clustering utilities)"""
+    from enspara.cluster import util
+    from enspara.cluster import KCenters
+    names = {'euclidean': 'euclidean', 'manhattan': 'manhattan', 'cityblock': 'manhattan'}
+    X = np.array([[0.0, 0.0], [3.0, 4.0], [1.0, -2.0], [-5.0, 12.0]])
+    y = np.array([0.0, 0.0])
+    for name, kernel in names.items():
+        for dt in ('float64', 'int32'):
+            ctx.ev()
+            ctx.guard('metric_names')
+            case = {'kind': 'names', 'name': name, 'dtype': dt}
+            ctx.state(('names', name, dt))
+            Xd, yd = X.astype(dt), y.astype(dt)
+            want = np.array([oracle(kernel, row, yd.tolist()) for row in Xd.tolist()])
+            try:
+                f = util._get_distance_method(name)
+                got = np.asarray(f(Xd, yd)).ravel()
+                if not np.allclose(got, want, rtol=1e-12, atol=0):
+                    ctx.violation('names:%s:wrong_kernel' % name, case, 'metric name %r computes %r, the %s distances are %r' % (name, got.tolist(), kernel, want.tolist()))
+                e = KCenters(name, n_clusters=1).fit(Xd)
+                d = np.asarray(e.predict(Xd).distances)
+                want0 = np.array([oracle(kernel, row, Xd[0].tolist()) for row in Xd.tolist()])
+                if not np.allclose(d, want0, rtol=1e-12, atol=0):
+                    ctx.violation('names:%s:estimator_distances' % name, case, 'KCenters(metric=%r) distances %r, expected %r' % (name, d.tolist(), want0.tolist()))
+            except Exception as e:
+                ctx.violation('names:%s:raises:%s' % (name, type(e).__name__), case, repr(e))
+    ctx.sample(case)
+
+
+def check_wide_rows(ctx):
+    """few rows x many features: the result must be bit-identical for every thread count and schedule"""
+    from enspara.geometry import libdist
+    from .. import sched
+    for kernel in ('euclidean', 'manhattan'):
+        for n, f in ((1, 1024), (3, 1030), (7, 2048), (8, 1024)):
+            X = ((np.arange(n * f).reshape(n, f) * 7919 % 1000) / 7.0).astype(np.float64)
+            y = ((np.arange(f) * 31 % 97) / 3.0).astype(np.float64)
+            fn = getattr(libdist, kernel)
+            outs = {}
+            for T in (1, 2, 3, 4, 7, 16):
+                for order in ('def', 'rev'):
+                    ctx.ev()
+                    ctx.guard('wide_rows')
+                    pts, res = sched.run_with_schedule(EXT, T, [99] * 4000 if order == 'rev' else [], lambda: fn(X, y))
+                    ctx.state(('wide', kernel, n, f, T, order), nontrivial=T > 1)
+                    outs.setdefault(res.tobytes(), []).append((T, order))
+            want = np.array([oracle(kernel, row, y.tolist()) for row in X.tolist()])
+            case = {'kind': 'wide_rows', 'kernel': kernel, 'n': n, 'f': f}
+            if len(outs) != 1:
+                ctx.violation('%s:thread_count_dependent' % kernel, case, '%d bitwise-different results over thread counts/orders: %r' % (
+                    len(outs), list(outs.values())))
+            got = np.frombuffer(next(iter(outs)))
+            if not np.allclose(got, want, rtol=1e-12, atol=0):
+                ctx.violation('%s:value:wide_rows' % kernel, case, '%r vs %r' % (got.tolist(), want.tolist()))
+    ctx.sample(case)
+
+
 def run_shard(sh, ctx):
     kind, tier, a, b = sh
+    if kind == 'names':
+        check_names(ctx)
+        check_wide_rows(ctx)
+        return
     if kind == 'inputs':
         kernel, dtype = a, b
         for k, rows, y in input_cases(kernel, dtype, tier):
@@ -395,6 +465,10 @@ def replay(case, ctx):
         check_call(case, ctx)
     elif case['kind'] == 'invalid':
         check_invalid(ctx)
+    elif case['kind'] == 'names':
+        check_names(ctx)
+    elif case['kind'] == 'wide_rows':
+        check_wide_rows(ctx)
     elif case['kind'] == 'sched':
         check_sched(case['kernel'], case['dtype'], ctx.tier, ctx)
     else:
